@@ -3,6 +3,8 @@
      ins <name> <id> <dbytes> <pcount> <gval>   -> ok <strct> | err | panic
      ext <name> <id> <strct>                    -> ok <gval> | err
      gen <name> <id> <strct>                    -> ok <gval> | err | panic
+     insp <name> <id> <strct> <gval>            -> ok <strct> | err | panic   (insert over the given prior contents)
+     rt2 <name> <id> <gval> <gval>              -> ok <gval> | err1 | err     (two inserts into one struct, extract)
      rt  <name> <id> <gval>                     -> ok <gval> | err     (insert into a struct of the schema's size, extract)
    Argument "prefix" selects the model of extractField before the Text/Data default fix.
    Token grammar: see docs/C19.md. *)
@@ -173,6 +175,26 @@ let () = iter_lines (fun line ->
         let sch = get (next ()) in let id = next_z () in
         let s = parse_struct () in
         show print_gval (gen_struct fuel sch id s)
+      | "insp" ->
+        let sch = get (next ()) in let id = next_z () in
+        let s0 = parse_struct () in
+        let v = parse_gval () in
+        show print_struct (insert_struct fuel sch id s0 v)
+      | "rt2" ->
+        let sch = get (next ()) in let id = next_z () in
+        let v1 = parse_gval () in
+        let v2 = parse_gval () in
+        (match List.assoc_opt id sch with
+         | None -> "err1"
+         | Some n ->
+           let db = 8 * int_of_z n.n_dwords and pc = int_of_z n.n_pcount in
+           let s0 = mk_struct (List.init db (fun _ -> Z0)) (List.init pc (fun _ -> PNull)) in
+           (match insert_struct fuel sch id s0 v1 with
+            | Ok s1 ->
+              (match insert_struct fuel sch id s1 v2 with
+               | Ok s2 -> show print_gval (extract_struct fixed fuel sch id s2)
+               | Err -> "err" | Panic -> "panic" | Unmodelled -> "unmodelled" | OutOfFuel -> "fuel")
+            | Err -> "err1" | Panic -> "panic1" | Unmodelled -> "unmodelled" | OutOfFuel -> "fuel"))
       | "rt" ->
         let sch = get (next ()) in let id = next_z () in
         let v = parse_gval () in
